@@ -139,6 +139,11 @@ static uint64_t battery(bool thorough, uint64_t seed, Out *o, long *count) {
         EncoderBuffer bx, by; bool okx = X->EncodeToBuffer(&bx).ok();
         std::unique_ptr<ExpertEncoder> Y(mesh ? new ExpertEncoder(static_cast<const Mesh &>(*g)) : new ExpertEncoder(*g)); for (auto &h : hist) apply(*Y, h); bool oky = Y->EncodeToBuffer(&by).ok();
         (*count)++; fp = fnv(fp, by.data(), by.size());
+        { // ... and from a fresh one that only received the FINAL value of every option (a setter called twice must overwrite)
+          std::unique_ptr<ExpertEncoder> Z(mesh ? new ExpertEncoder(static_cast<const Mesh &>(*g)) : new ExpertEncoder(*g)); std::map<std::pair<int, int>, Set> last; for (auto &h : hist) last[{h.kind, h.kind == 1 ? h.a : 0}] = h;
+          for (auto &kv : last) apply(*Z, kv.second); EncoderBuffer bz; bool okz = Z->EncodeToBuffer(&bz).ok();
+          if (o && (okz != oky || bz.size() != by.size() || memcmp(bz.data(), by.data(), by.size()) != 0))
+            o->fail(std::string("C06 setting an option twice differs from setting its final value once (step ") + S(step) + ", " + (oky ? U(by.size()) + " bytes" : std::string("fails")) + " vs " + (okz ? U(bz.size()) + " bytes" : std::string("fails")) + "): " + (mesh ? "mesh" : "pc") + " geo#" + S(i)); }
         if (o && (okx != oky || bx.size() != by.size() || memcmp(bx.data(), by.data(), by.size()) != 0))
           o->fail(std::string("C06 an ExpertEncoder that has encoded before behaves differently from a fresh one with the same option calls (step ") + S(step) + ", " + (okx ? U(bx.size()) + " bytes" : std::string("fails")) + " vs " + (oky ? U(by.size()) + " bytes" : std::string("fails")) + "): " + (mesh ? "mesh" : "pc") + " geo#" + S(i)); } }
     int nopt = thorough ? 4 : 3;
